@@ -362,6 +362,9 @@ func (a *Application) handleNonStreamingBackendError(
 		"status_code", recorder.status,
 		"translator", trans.Name())
 
+	// the client is about to see an error status: don't let the translator metrics count a success
+	pr.hadError = true
+
 	errorMsg := a.extractAndLogBackendError(openaiResp, recorder.status, pr, trans)
 
 	// copy observability headers before writing error
@@ -606,6 +609,9 @@ func (a *Application) handleStreamingBackendError(
 	pr.requestLogger.Debug("Backend returned error in streaming mode, translating to target format",
 		"status_code", streamRecorder.status,
 		"translator", trans.Name())
+
+	// the client is about to see an error status: don't let the translator metrics count a success
+	pr.hadError = true
 
 	// Read error response from pipe
 	errorBody, _ := io.ReadAll(pipeReader)
